@@ -535,6 +535,7 @@ func checkEvalNeverNilSignal(p *Prog, l *Ledger) {
 	}
 	n := 0
 	bad := 0
+	helperSeen := map[*ssa.Function]bool{}
 	var check func(v ssa.Value, seen map[ssa.Value]bool) bool
 	check = func(v ssa.Value, seen map[ssa.Value]bool) bool {
 		if seen[v] {
@@ -547,6 +548,23 @@ func checkEvalNeverNilSignal(p *Prog, l *Ledger) {
 		case *ssa.Extract:
 			if c, ok := x.Tuple.(*ssa.Call); ok && c.Call.StaticCallee() == ev && x.Index == 1 {
 				return true
+			}
+			// the signal of a helper eval delegates to (evalFor …): every return of the helper must qualify in turn
+			if c, ok := x.Tuple.(*ssa.Call); ok {
+				if g := c.Call.StaticCallee(); g != nil && g != ev && p.InModule(g) && g.Blocks != nil && !helperSeen[g] {
+					helperSeen[g] = true
+					defer delete(helperSeen, g)
+					all, any := true, false
+					instrsOf(g, func(in ssa.Instruction) {
+						if ret, ok := in.(*ssa.Return); ok && x.Index < len(ret.Results) {
+							any = true
+							if !check(ret.Results[x.Index], map[ssa.Value]bool{}) {
+								all = false
+							}
+						}
+					})
+					return all && any
+				}
 			}
 		case *ssa.Phi:
 			for _, e := range x.Edges {
@@ -737,6 +755,11 @@ func checkRecursion(p *Prog, l *Ledger, reach map[*ssa.Function]bool) {
 		}
 	}
 	nsites := 0
+	type sameEdge struct {
+		from, to *ssa.Function
+		key, pos string
+	}
+	var sameEdges []sameEdge
 	for _, fn := range fns {
 		n := cg.Nodes[fn]
 		if n == nil {
@@ -761,9 +784,41 @@ func checkRecursion(p *Prog, l *Ledger, reach map[*ssa.Function]bool) {
 			ok, why := structuralDescent(p, fn, e.Site, c)
 			if ok {
 				l.Discharge("C07/P8-recursion", key+"#"+describeCallArg0(e.Site), p.InstrPos(e.Site), why, true)
+			} else if why == sameNodeWhy && c != fn {
+				sameEdges = append(sameEdges, sameEdge{fn, c, key, p.InstrPos(e.Site)})
 			} else {
 				l.Violate("C07/P8-recursion", key, p.InstrPos(e.Site), "recursive call without structural descent or depth bound: "+why)
 			}
+		}
+	}
+	// a call that hands the same node to a helper (eval → evalFor(e)) does not descend, but is harmless when every cycle
+	// through it also contains a descending call: the graph of such edges alone must be acyclic
+	adj := map[*ssa.Function][]*ssa.Function{}
+	for _, se := range sameEdges {
+		adj[se.from] = append(adj[se.from], se.to)
+	}
+	reaches := func(from, to *ssa.Function) bool {
+		seen := map[*ssa.Function]bool{}
+		stack := []*ssa.Function{from}
+		for len(stack) > 0 {
+			x := stack[len(stack)-1]
+			stack = stack[:len(stack)-1]
+			if x == to {
+				return true
+			}
+			if seen[x] {
+				continue
+			}
+			seen[x] = true
+			stack = append(stack, adj[x]...)
+		}
+		return false
+	}
+	for _, se := range sameEdges {
+		if reaches(se.to, se.from) {
+			l.Violate("C07/P8-recursion", se.key, se.pos, "recursive call without structural descent or depth bound: the node is passed on unchanged around a whole cycle of calls")
+		} else {
+			l.Discharge("C07/P8-recursion", se.key+"#same-node", se.pos, "hands its own node to a helper unchanged; every cycle of calls through this edge also contains a call on a proper part of the node", true)
 		}
 	}
 	if nsites < 30 {
@@ -828,62 +883,60 @@ func structuralDescent(p *Prog, caller *ssa.Function, site ssa.CallInstruction, 
 	for _, prm := range caller.Params {
 		callerMeasure = append(callerMeasure, prm)
 	}
-	// walk back from measure through field loads / index / range / type tests to a caller parameter
-	v := measure
-	steps := 0
-	for d := 0; d < 12; d++ {
+	// walk back from measure through field loads / index / range / type tests (and φs: every incoming value) to a caller parameter
+	_ = callerMeasure
+	var derive func(v ssa.Value, d int, seen map[ssa.Value]bool) (int, string, bool, string)
+	derive = func(v ssa.Value, d int, seen map[ssa.Value]bool) (int, string, bool, string) {
+		if d > 14 {
+			return 0, "", false, "derivation too deep"
+		}
 		switch x := v.(type) {
 		case *ssa.Parameter:
-			if steps == 0 {
-				return false, "passes its own argument on unchanged"
-			}
-			_ = callerMeasure
-			return true, fmt.Sprintf("argument %s is a proper part of the caller's own argument %s (structural recursion, bounded by program size)", describe(measure), x.Name())
+			return 0, x.Name(), true, ""
 		case *ssa.UnOp:
 			if x.Op != token.MUL {
-				return false, "argument derived through " + x.Op.String()
+				return 0, "", false, "argument derived through " + x.Op.String()
 			}
-			v = x.X
+			return derive(x.X, d+1, seen)
 		case *ssa.FieldAddr:
-			steps++
-			v = x.X
+			n, r, ok, w := derive(x.X, d+1, seen)
+			return n + 1, r, ok, w
 		case *ssa.Field:
-			steps++
-			v = x.X
+			n, r, ok, w := derive(x.X, d+1, seen)
+			return n + 1, r, ok, w
 		case *ssa.IndexAddr:
-			steps++
-			v = x.X
+			n, r, ok, w := derive(x.X, d+1, seen)
+			return n + 1, r, ok, w
 		case *ssa.Index:
-			steps++
-			v = x.X
+			n, r, ok, w := derive(x.X, d+1, seen)
+			return n + 1, r, ok, w
 		case *ssa.Lookup:
-			steps++
-			v = x.X
+			n, r, ok, w := derive(x.X, d+1, seen)
+			return n + 1, r, ok, w
 		case *ssa.Extract:
 			switch t := x.Tuple.(type) {
 			case *ssa.TypeAssert:
-				v = t.X
+				return derive(t.X, d+1, seen)
 			case *ssa.Next:
-				steps++
 				if r, ok := t.Iter.(*ssa.Range); ok {
-					v = r.X
-				} else {
-					return false, "range over unknown iterator"
+					n, rt, ok2, w := derive(r.X, d+1, seen)
+					return n + 1, rt, ok2, w
 				}
+				return 0, "", false, "range over unknown iterator"
 			case *ssa.Lookup:
-				steps++
-				v = t.X
+				n, r, ok, w := derive(t.X, d+1, seen)
+				return n + 1, r, ok, w
 			default:
-				return false, "argument comes from a call result (" + describe(x.Tuple) + "), not from the caller's node"
+				return 0, "", false, "argument comes from a call result (" + describe(x.Tuple) + "), not from the caller's node"
 			}
 		case *ssa.TypeAssert:
-			v = x.X
+			return derive(x.X, d+1, seen)
 		case *ssa.MakeInterface:
-			v = x.X
+			return derive(x.X, d+1, seen)
 		case *ssa.ChangeInterface:
-			v = x.X
+			return derive(x.X, d+1, seen)
 		case *ssa.ChangeType:
-			v = x.X
+			return derive(x.X, d+1, seen)
 		case *ssa.Alloc:
 			// address of a range copy (&decl): find the single store
 			var st *ssa.Store
@@ -893,18 +946,42 @@ func structuralDescent(p *Prog, caller *ssa.Function, site ssa.CallInstruction, 
 				}
 			}
 			if st == nil {
-				return false, "argument is a fresh object"
+				return 0, "", false, "argument is a fresh object"
 			}
-			v = st.Val
+			return derive(st.Val, d+1, seen)
 		case *ssa.Phi:
-			return false, "argument is a φ of several values"
-		default:
-			return false, "argument " + describe(measure) + " is not derived from the caller's own argument"
+			if seen[x] {
+				return 1 << 20, "", true, "" // loop-carried value: decided by the other edges
+			}
+			seen[x] = true
+			best, root := 1<<20, ""
+			for _, e := range x.Edges {
+				n, r, ok, w := derive(e, d+1, seen)
+				if !ok {
+					return 0, "", false, "one value of the φ: " + w
+				}
+				if n < best {
+					best = n
+				}
+				if r != "" {
+					root = r
+				}
+			}
+			return best, root, true, ""
 		}
+		return 0, "", false, "argument " + describe(measure) + " is not derived from the caller's own argument"
 	}
-	return false, "derivation too deep"
+	steps, root, ok, why := derive(measure, 0, map[ssa.Value]bool{})
+	if !ok {
+		return false, why
+	}
+	if steps == 0 || steps >= 1<<20 {
+		return false, sameNodeWhy
+	}
+	return true, fmt.Sprintf("argument %s is a proper part of the caller's own argument %s (structural recursion, bounded by program size)", describe(measure), root)
 }
 
+const sameNodeWhy = "passes its own argument on unchanged"
 
 // fieldFlowTypes: for an interface{} value loaded from a struct field, the dynamic types that the
 // module ever stores into that field (following field-to-field copies, parameters to their call
